@@ -1248,12 +1248,19 @@ _PY_BUILTINS = {
     "int": int,
     "float": float,
     "object": object,
+    "chr": lambda x: chr(int(x)),
+    "ord": ord,
+    "round": round,
+    "divmod": divmod,
+    "frozenset": frozenset,
+    "getattr": lambda o, n, d=None: getattr(o, n, d) if not isinstance(o, (XObj,)) else o.attrs.get(n, d),
+    "hasattr": lambda o, n: hasattr(o, n),
     "str": str,
     "bool": bool,
-    "list": lambda x=(): list(x),
-    "tuple": lambda x=(): tuple(x),
+    "list": list,
+    "tuple": tuple,
     "dict": dict,
-    "set": lambda x=(): set(x),
+    "set": set,
     "zip": lambda *a: list(zip(*a)),
     "enumerate": lambda x, start=0: list(enumerate(x, start)),
     "abs": lambda x: abs(exact(x)),
